@@ -3,6 +3,7 @@ package verifenv
 import (
 	"context"
 	"io"
+	"path"
 	"syscall"
 	"time"
 
@@ -26,7 +27,7 @@ func DiskUsage(ctx context.Context, p string) (*disk.UsageStat, error) {
 	if !FS.IsDir(p) {
 		return nil, syscall.ENOENT
 	}
-	free, ok := Free[p]
+	free, ok := Free[path.Clean(p)]
 	if !ok {
 		free = DefaultFree
 	}
